@@ -99,11 +99,61 @@ def run(ctx):
         ctx.check("resolve-swaps-winner", f"{CF}:TextConflict.{meth}", any(c.args and const_value(c.args[-1]) == suf for c in calls_in(f)), f"{meth} resolves with {suf}")
 
 
+    # ---- resolving removes the helper files and the record ------------------------------------------
+    CG = "breezy/conflicts.py"
+    fc = repo.func(CG, "Conflict.cleanup")
+    wc = f"{CG}:Conflict.cleanup"
+    gc = build_cfg(fc)
+    dl = calling(gc, name={"osutils.delete_any", "delete_any", "os.unlink", "os.remove"})
+    hdr = [n.id for n in gc.nodes if n.kind == "for" and norm(n.ast.iter) == "self.associated_filenames()"]
+    ctx.check("resolve-removes-helpers", wc, len(hdr) == 1 and bool(dl) and all(hdr[0] in gc.loops_of(d) for d in dl), "cleanup deletes inside a loop over self.associated_filenames()", message="Conflict.cleanup no longer deletes each associated helper file")
+    if hdr and dl:
+        lv = norm(gc.nodes[hdr[0]].ast.target)
+        ctx.check("resolve-removes-helpers", wc, all(any(norm(a) == f"tree.abspath({lv})" for c in gc.nodes[d].calls() for a in c.args) for d in dl), f"what is deleted is tree.abspath({lv}) — the helper file itself")
+        # a helper that is already gone must not keep the remaining ones: after the delete raised (and the error was
+        # swallowed) the loop goes on; an error that is not swallowed propagates (nothing is silently skipped)
+        ok = True
+        for d in dl:
+            xs = [b for (b, l) in gc.succ[d] if l == "X"]
+            swallowed = gc.reach(xs, avoid={gc.raise_exit} if hasattr(gc, "raise_exit") else set(), include_src=True)
+            if gc.exit in swallowed and hdr[0] not in gc.reach(xs, include_src=True):
+                ok = False
+            # any continuation that swallows the error must come back to the loop header before leaving
+            g2 = gc.copy_without({(a, b, l) for a in range(len(gc.nodes)) for (b, l) in gc.succ[a] if b == hdr[0]})
+            if gc.exit in g2.reach(xs, include_src=True):
+                ok = False
+        ctx.check("resolve-removes-helpers", wc, ok, "a missing helper file does not stop the removal of the others (the swallowed error continues with the next file)", message="when one helper file is already missing the swallowed FileNotFoundError leaves the loop: the remaining helper files (.THIS/.OTHER) stay behind although the conflict is marked resolved")
+    fr = repo.func(CG, "resolve")
+    wr = f"{CG}:resolve"
+    gr = build_cfg(fr)
+    do = calling(gr, attr="do", recv="conflict")
+    cl = calling(gr, attr="cleanup", recv="conflict")
+    keep = calling(gr, attr="append", recv="new_conflicts")
+    setc = calling(gr, attr="set_conflicts")
+    ctx.require(bool(do) and bool(setc), f"{wr}: conflict.do / set_conflicts not found")
+    ok = bool(cl)
+    if ok:
+        # from the normal completion of do(), cleanup is reached before the loop goes on or the function ends
+        hdrs = [n.id for n in gr.nodes if n.kind == "for"]
+        r = gr.copy_without({(d, b, l) for d in do for (b, l) in gr.succ[d] if l == "X"}).reach(do, avoid=set(cl))
+        ok = not (r & (set(hdrs) | set(setc) | {gr.exit}))
+    ctx.check("resolve-removes-helpers", wr, ok, "after conflict.do(action) succeeded, conflict.cleanup(tree) runs before the next conflict / before the list is stored", message="a resolved conflict's helper files are not cleaned up on some path")
+    hs = [n for n in gr.nodes if n.kind == "handler"]
+    from ..astutil import handler_types
+
+    kept_ok = all(any(gr.nodes[k].lineno >= h.ast.lineno and gr.nodes[k].lineno <= h.ast.end_lineno for h in hs if handler_types(h.ast) == ["NotImplementedError"] or set(handler_types(h.ast)) == {"NotImplementedError"}) for k in keep) and bool(keep)
+    ctx.check("resolve-removes-record", wr, kept_ok, "a processed conflict stays in the list only when its action is not implemented (NotImplementedError)", message="a conflict selected for resolution is kept (or dropped) on the wrong condition")
+    ctx.check("resolve-removes-record", wr, all(any(norm(a) == "new_conflicts" for c in gr.nodes[i].calls() if call_attr(c) == "set_conflicts" for a in c.args) for i in setc), "what is stored afterwards is the list of not-selected (plus unresolvable) conflicts")
+
+
 MUTANTS = [
     Mutant("record dropped in the weave merger", MG, "        if base_lines is not None:\n            # Conflict\n            self._raw_conflicts.append((\"text conflict\", trans_id))\n", "        if base_lines is not None:\n            # Conflict\n", expect="record-and-helpers-paired"),
     Mutant("marker tested instead of the sentinel", MG, "                if line.startswith(start_marker):", "                if line.startswith(b\"<<<<<<<\"):", expect="sentinel-def-use"),
     Mutant("diff3 conflict recorded on every status", MG, "            if status == 1:\n                name = self.tt.final_name(trans_id)", "            if status in (0, 1):\n                name = self.tt.final_name(trans_id)", expect="recorded-only-on-conflict"),
     Mutant("helper suffix renamed on the merge side", MG, "            (\"THIS\", self.this_tree, this_path, this_lines),", "            (\"MINE\", self.this_tree, this_path, this_lines),", expect="helper-suffixes"),
     Mutant("conflict flag set for every line", MG, "                if line.startswith(start_marker):\n                    retval[\"text_conflicts\"] = True\n                    yield line.replace(start_marker, b\"<\" * 7)", "                retval[\"text_conflicts\"] = True\n                if line.startswith(start_marker):\n                    yield line.replace(start_marker, b\"<\" * 7)", expect="flag-def-use"),
+    Mutant("one suppress around the whole cleanup loop", "breezy/conflicts.py", "        for fname in self.associated_filenames():\n            with contextlib.suppress(FileNotFoundError):\n                osutils.delete_any(tree.abspath(fname))", "        with contextlib.suppress(FileNotFoundError):\n            for fname in self.associated_filenames():\n                osutils.delete_any(tree.abspath(fname))", expect="resolve-removes-helpers"),
+    Mutant("cleanup skipped after a successful action", "breezy/conflicts.py", "                conflict.do(action, tree)\n                conflict.cleanup(tree)\n", "                conflict.do(action, tree)\n", expect="resolve-removes-helpers"),
+    Mutant("neutral: cleanup uses try/except per file", "breezy/conflicts.py", "            with contextlib.suppress(FileNotFoundError):\n                osutils.delete_any(tree.abspath(fname))", "            try:\n                osutils.delete_any(tree.abspath(fname))\n            except FileNotFoundError:\n                pass", neutral=True),
     Mutant("neutral: sentinel variable renamed", MG, "        base_marker = b\"|\" * 7 if self.show_base is True else None\n", "        base_marker = (b\"|\" * 7) if self.show_base is True else None\n", neutral=True),
 ]
